@@ -92,6 +92,24 @@ CLAIMED.update({
             'DESIGN.md §3 C15'),
 })
 
+COVER_NOTE = ('Trusted: z3, Context.let for reading the truth tables of the inputs. Bounds: domains of at most 64 points '
+              '(1-4 integer variables of 1-3 bits, non-negative / sign-crossing / all-negative hints), exhaustive over all '
+              'Boolean functions of three two-valued variables (thorough: four).')
+CLAIMED.update({
+    'C08': ('model_checking',
+            'Context.to_expr run for real per (predicate, care set, options); the printed string is re-parsed and interpreted over integers by an independent evaluator; z3 decides equivalence on the care set for every integer point and, per listed disjunct, non-emptiness, no care point outside the predicate, and coverage',
+            'Bounded solver check per printed formula, all integer points of the bit ranges symbolic; five printing-option combinations.',
+            COVER_NOTE + ' The placeholder line `care expression` is read as TRUE on the care set.', 'DESIGN.md §3 C08'),
+    'C09': ('model_checking',
+            'cover.minimize run for real per (predicate, care set); returned boxes checked at every domain point (implicant, one-step maximal, covering) and minimality decided by z3 as a search over all alternative covers: k-1 boxes with Int endpoints avoiding CARE /\\ ~F and containing F must be unsat',
+            'Bounded solver check: minimality is a quantification over all covers, discharged by the solver independently of the lattice encoding the algorithm and its own assertions use.',
+            COVER_NOTE, 'DESIGN.md §3 C09'),
+    'C10': ('model_checking',
+            'cover_enum.minimize run for real; per returned cover the C09 facts; z3 decides minimality (no k-1 cover) and completeness (no k pairwise-distinct prime boxes, primality encoded on Int endpoints, covering F whose set differs from every returned cover); any exception is a violation',
+            'Bounded solver check of exactness of a set of sets; the internal AssertionError of the lifting step is a recorded known finding (two call sites).',
+            COVER_NOTE, 'DESIGN.md §3 C10'),
+})
+
 NOT_APPLICABLE = {
     'C16': 'Parser/precedence/round-trip: PLY regex lexer + table-driven LALR driver over token sequences; no arithmetic or bit-level state for a solver to range over. CrossHair on lexyacc.Parser.parse with symbolic strings (len <= 3) answers "Unable to meet precondition" after 90 s. See DESIGN.md §5.',
 }
